@@ -221,7 +221,7 @@ def run_case(case, ctx):
             from scipy.integrate import solve_ivp
             try:
                 df = observe.run_model(spec, T=T, dt=dt, solver='scipy', outputs=outputs, vectorize=vec, inputs=inputs,
-                                       method='RK45', rtol=1e-9, atol=1e-11)
+                                       method='RK45', rtol=1e-9, atol=1e-11, max_step=T / (N - 1) / 2)
             except Exception as e:
                 import traceback
                 raise observe.Mismatch(f"loud: run(scipy) raised {type(e).__name__}: {e} :: {traceback.format_exc()[-600:]}")
